@@ -100,6 +100,10 @@ pub fn run() -> i32 {
     // groups of two rules, lists of two groups
     let small: Vec<&str> = pool.iter().copied().step_by(3).collect();
     for a in &small { for b in &small { for c in &small { specs.push(vec![vec![*a, *b], vec![*c]]); specs.push(vec![vec![*c], vec![*a, *b]]); } } }
+    // groups whose rules undo each other: the group as a whole leaves the phrase as it was and is not to be reported, although its rules fired
+    for (x, y) in [("a > e", "e > a"), ("p > b", "b > p"), ("a > [+nasal]", "a > [-nasal]"), ("% > [+stress] / #_", "% > [-stress]"), ("* > t / _#", "t > * / _#")] {
+        for c in &small { specs.push(vec![vec![x, y], vec![*c]]); specs.push(vec![vec![*c], vec![x, y]]); specs.push(vec![vec![x, y, *c]]); specs.push(vec![vec![x], vec![y], vec![x, y]]); }
+    }
     // empty groups and comment-only groups in between
     for a in &small { for b in &small { specs.push(vec![vec![*a], vec![], vec![*b]]); specs.push(vec![vec![";; nothing"], vec![*a], vec![*b]]); } }
     let mut t = Acc::default();
